@@ -40,6 +40,9 @@ pub struct Inject {
     /// message keys that must be delivered completely (valid messages): (key, body bytes)
     #[serde(default)]
     pub must_deliver: Vec<(u32, usize)>,
+    /// same, identified by the stream id the endpoint used for its own request (response must arrive complete)
+    #[serde(default)]
+    pub must_deliver_streams: Vec<(u32, usize)>,
     /// message keys whose head must not be delivered by the receive API
     #[serde(default)]
     pub no_head: Vec<u32>,
@@ -61,6 +64,9 @@ pub struct RawCase {
     pub spec: RawSpec,
     pub inject: Option<Inject>,
     pub probe_stream: u32,
+    /// capacity of the pipe carrying E's output (None = unbounded)
+    #[serde(default)]
+    pub e_out_cap: Option<usize>,
 }
 
 pub struct RawRun {
@@ -70,7 +76,7 @@ pub struct RawRun {
 
 pub fn run_raw(case: &RawCase) -> RawRun {
     let obs = Rc::new(RefCell::new(PeerObs::default()));
-    let run = run_sim(&case.base, Some((case.h2_side, Rc::new(case.spec.clone()), obs.clone())));
+    let run = run_sim_cap(&case.base, Some((case.h2_side, Rc::new(case.spec.clone()), obs.clone())), case.e_out_cap);
     let o = std::mem::take(&mut *obs.borrow_mut());
     RawRun { run, obs: o }
 }
@@ -136,7 +142,7 @@ pub const N_ITEMS_SERVER: usize = 78;
 
 #[allow(clippy::too_many_lines)]
 fn server_item(k: usize, t: &mut Tape, target: u32, state: &str, next_id: u32, cfg: &Cfg) -> Option<(Vec<PStep>, Inject)> {
-    let mk = |item: &str, class: Class, stream: u32, basis: &str, never: Vec<u32>| Inject { item: item.into(), state: state.into(), class, stream, basis: basis.into(), never_surface: never, must_deliver: vec![], no_head: vec![], no_clean_end: vec![], prop: "C09".into(), wire_optional: false };
+    let mk = |item: &str, class: Class, stream: u32, basis: &str, never: Vec<u32>| Inject { item: item.into(), state: state.into(), class, stream, basis: basis.into(), never_surface: never, must_deliver: vec![], must_deliver_streams: vec![], no_head: vec![], no_clean_end: vec![], prop: "C09".into(), wire_optional: false };
     let has_stream = state != "none";
     let s = target;
     let idle = next_id; // an id never used so far
@@ -396,7 +402,7 @@ pub fn gen_catalogue_server(tapes: &[Vec<u32>]) -> RawCase {
     }
     let spec = RawSpec { peer_settings: if t.bool() { vec![] } else { vec![(3, 100), (4, 65535)] }, script, grant: Grant::Eager, close_at_end: true };
     let base = base_case(&mut t, tapes, cfg, reqs);
-    RawCase { h2_side: Side::Server, base, spec, inject, probe_stream: probe }
+    RawCase { h2_side: Side::Server, base, spec, inject, probe_stream: probe, e_out_cap: None }
 }
 
 // ------------------------------------------------------------ evaluation
@@ -510,6 +516,25 @@ pub fn check_c09(case: &RawCase, rr: &RawRun, an: &Analysed, out: &mut Outcome) 
         if !ok && rr.run.panic.is_none() && rr.obs.script_done {
             let got = recv.get(&(*key, e.other())).map(|r| format!("heads {} bytes {} clean_end {} err {:?}", r.heads.len(), r.bytes, r.clean_end.is_some(), r.err.as_ref().map(|x| &x.1.text)));
             out.fail("C09", "tolerance/valid-message", format!("C09/{}/{}/valid-message-not-delivered", role, inj.item), format!("{}: a valid message (key {}, {} body bytes) was not delivered completely: {:?} — {}", inj.item, key, bytes, got, inj.basis));
+        }
+    }
+    if !inj.must_deliver_streams.is_empty() {
+        let (sent, _) = views(&rr.run.events);
+        for (stream, bytes) in &inj.must_deliver_streams {
+            let key = sent.iter().find(|((_, from), m)| *from == e && m.stream == *stream).map(|((k, _), _)| *k);
+            if let Some(key) = key {
+                // (body content is keyed by request key on the application side, by stream id on the peer's: only the length is compared here)
+                let resp_ok = recv.get(&(key, e.other())).map(|r| r.clean_end.is_some() && r.bytes == *bytes).unwrap_or(false);
+                // … and the endpoint's own half of the exchange reached the wire completely
+                let own_end_on_wire = an.tap.frames.iter().any(|f| f.from == e && f.raw.stream == *stream && matches!(&f.frame, Ok(Frame::Data { end_stream: true, .. }) | Ok(Frame::Headers { end_stream: true, .. })));
+                let ok = resp_ok && own_end_on_wire;
+                // (the peer waits for these streams: a script that is not done at quiescence means the endpoint's
+                // side of them never finished)
+                if !ok && rr.run.panic.is_none() && rr.run.end == RunEnd::Quiescent {
+                    let got = recv.get(&(key, e.other())).map(|r| format!("heads {} bytes {} clean_end {} err {:?}", r.heads.len(), r.bytes, r.clean_end.is_some(), r.err.as_ref().map(|x| &x.1.text)));
+                    out.fail("C09", "tolerance/valid-message", format!("C09/{}/{}/valid-message-not-delivered", role, inj.item), format!("{}: the exchange on stream {} (key {}) did not complete: {:?} — {}", inj.item, stream, key, got, inj.basis));
+                }
+            }
         }
     }
     let wire_demand = !inj.wire_optional;
@@ -787,6 +812,7 @@ pub fn gen_http_server(tapes: &[Vec<u32>]) -> RawCase {
         basis: "RFC 9113 §8.1.1 malformed messages; §8.2 field validity; §8.3 pseudo-header rules; §8.5 CONNECT".into(),
         never_surface: vec![],
         must_deliver: vec![],
+        must_deliver_streams: vec![],
         no_head: vec![],
         no_clean_end: vec![],
         prop: "C13".into(),
@@ -814,7 +840,7 @@ pub fn gen_http_server(tapes: &[Vec<u32>]) -> RawCase {
     script.push(PStep::Barrier);
     let spec = RawSpec { peer_settings: vec![], script, grant: Grant::Eager, close_at_end: true };
     let base = base_case(&mut t, tapes, cfg, vec![]);
-    RawCase { h2_side: Side::Server, base, spec, inject: Some(inj), probe_stream: probe }
+    RawCase { h2_side: Side::Server, base, spec, inject: Some(inj), probe_stream: probe, e_out_cap: None }
 }
 
 pub fn gen_http_client(tapes: &[Vec<u32>]) -> RawCase {
@@ -934,6 +960,7 @@ pub fn gen_http_client(tapes: &[Vec<u32>]) -> RawCase {
         basis: "RFC 9113 §8.1 (message framing, interim responses), §8.1.1 malformed messages, §8.2, §8.3.2 response pseudo-header".into(),
         never_surface: vec![],
         must_deliver: vec![],
+        must_deliver_streams: vec![],
         no_head: vec![],
         no_clean_end: vec![],
         prop: "C13".into(),
@@ -962,7 +989,7 @@ pub fn gen_http_client(tapes: &[Vec<u32>]) -> RawCase {
     let spec = RawSpec { peer_settings: vec![], script, grant: Grant::Eager, close_at_end: false };
     let mut base = base_case(&mut t, tapes, cfg, reqs);
     base.drop_send_request_at_end = true;
-    RawCase { h2_side: Side::Client, base, spec, inject: Some(inj), probe_stream: 2 }
+    RawCase { h2_side: Side::Client, base, spec, inject: Some(inj), probe_stream: 2, e_out_cap: None }
 }
 
 pub struct HttpEngine {
